@@ -74,6 +74,7 @@ func runBoundary(b boundaryCase) *vh.Failure {
 func TestSecondMessageAtPacketBoundary(t *testing.T) {
 	gen := func(rt *rapid.T) boundaryCase {
 		c := genCase(rt)
+		shortNames(&c)
 		c.PackSize, c.Reject, c.Plain = 0, "", false
 		max := c.Key.Capacity() - len(c.Nonce)
 		if len(c.Password) > max {
